@@ -1375,7 +1375,7 @@ class Evaluator:
                 and len(args[0][2]) == 1 and not args[0][3]:
             # ``list(dict.fromkeys(xs))``: first occurrences in order -- the library's unique_in_order (whose meaning C19.I4 decides)
             u = [x for x in self.model.all_functions() if x.name == "unique_in_order" and x.kind == "function"]
-            if len(u) == 1:
+            if len(u) == 1 and not (fr.fn is not None and fr.fn.name == "unique_in_order"):
                 return ("call", ("fn", u[0].qualname), (), (("iterable", args[0][2][0]),))
         return None
 
